@@ -112,13 +112,16 @@ class ClohessyWiltshire(AnalyticalPropagator):
             date = self.orbit.date + date
 
         orb = self.orbit
-        # Maneuvers dated at or before the epoch of the orbit are already
-        # part of its state (same convention as ImpulsiveMan.check)
+        # Maneuvers dated before the epoch of the orbit are already part of its
+        # state. An impulse takes effect just after its date: the state at the
+        # very date of an impulse does not include it, so that an orbit can be
+        # given at the date of its first maneuver, and be propagated further
+        # from the date of a maneuver
         epoch = orb.date
 
         # Maneuvers handling
         for man in self.orbit.maneuvers:
-            if isinstance(man, ImpulsiveMan) and epoch < man.date <= date:
+            if isinstance(man, ImpulsiveMan) and epoch <= man.date < date:
                 orb = self._propagate(man.date, orb)
                 orb[3:] += man.dv(orb)
             elif (
